@@ -219,7 +219,7 @@ class XmlContext:
         """
 
         def get_field_diff(clazz: type) -> int:
-            meta = self.cache[clazz]
+            meta = self.build(clazz)
             local_names = {var.local_name for var in meta.get_all_vars()}
             return len(local_names - field_names)
 
@@ -279,10 +279,11 @@ class XmlContext:
             The class binding metadata instance.
         """
         key = self.cache_key(clazz, parent_ns)
-        if key not in self.cache:
+        meta = self.cache.get(key)
+        if meta is None:
             builder = self.get_builder(globalns)
-            self.cache[key] = builder.build(clazz, parent_ns)
-        return self.cache[key]
+            meta = self.cache[key] = builder.build(clazz, parent_ns)
+        return meta
 
     @classmethod
     def cache_key(cls, clazz: type, parent_ns: str | None) -> Any:
